@@ -35,7 +35,7 @@ FIX_DATE6, FIX_TIME4, FIX_DATE8, FIX_TIME6, FIX_GSCTL = '260926', '1234', '20260
 
 FAULTS = ['bad_code', 'too_long', 'missing_elem', 'missing_seg', 'unknown_seg', 'unknown_outside', 'dup_st', 'se_count',
           'ge_count', 'env_elem', 'too_many', 'trailing_sep', 'st03_bad', 'missing_se', 'sub_elem', 'ge_nonnum',
-          'too_many_st', 'missing_ge', 'composite']
+          'too_many_st', 'missing_ge', 'hl_num', 'lx_num', 'composite']
 
 
 # ------------------------------------------------------------------------------------ documents
@@ -327,6 +327,17 @@ def inject(rnd, doc, kind, special=None):
             return None
         doc.insert(rnd.choice(cand), {'id': 'ZZZ', 'els': [['1']], 'node': None})
         return 'unknown_outside:' + where
+    if kind in ('hl_num', 'lx_num'):
+        # a well-typed but wrong HL01 / HL02 / LX01: the reader's numbering reports (HL1, HL2, LX) have no AK304 code of their own
+        sid = 'HL' if kind == 'hl_num' else 'LX'
+        cands = [k for k in range(len(doc)) if ids[k] == sid]
+        if not cands:
+            return None
+        k = rnd.choice(cands)
+        i = 1 if (sid == 'HL' and rnd.random() < 0.4 and getv(doc[k], 1, None)) else 0
+        v = getv(doc[k], i, None)
+        putv(doc[k], i, None, str(to_int(v) + rnd.choice((1, 2, 7))) if v else '9')
+        return '%s@%s%02d' % (kind, sid, i + 1)
     if kind == 'set_overload':
         # one set collecting as many DISTINCT set-level codes as the reader and the maps allow: repeated control number (23),
         # SE02 differing from ST02 (3) and too short (7), SE01 not numeric (6) and not the count (4), a body error (5)
